@@ -2,6 +2,7 @@
 pub mod faults;
 pub mod layout;
 pub mod lsp;
+pub mod mutate;
 pub mod prog;
 pub mod reflex;
 pub mod render;
